@@ -356,6 +356,12 @@ func c10Run(rc *RunCtx, params any) {
 				fromAddr, toAddr = pair.SAddr, pair.CAddr
 			}
 			pl := Payload("ref-"+from, 7, k, p.Sizes[k%len(p.Sizes)])
+			ref.Explicit = nil
+			if k%2 == 1 {
+				// a sender that numbers its explicit nonces with its own counter
+				ref.Explicit = func(_ uint16, seq uint64) []byte { return u64(0xc0ffee0000000000 | (seq*2654435761)&0xffffffffff) }
+				s.Probe("reference-record-with-own-explicit-nonce")
+			}
 			raw := ref.Seal(from == "c", CTAppData, 1, nextSeq[from]+uint64(10+k), cid, len(cid) > 0, pl, k*3)
 			before := len(rd.Got)
 			n.InjectNow(fromAddr, toAddr, raw)
